@@ -3,7 +3,8 @@
    [safe r] is [r <> Panic /\ r <> Fuel] (Base/Prelude.v). *)
 From PV Require Import Base.Prelude Base.Slice.
 From PV Require Import Model.NDPOptions Model.MiscHopByHop Model.HandlersLoop Model.HandlersDnsMsg.
-From PV Require Import Proofs.NDPOptions Proofs.MiscHopByHop Proofs.HandlersDnsMsg.
+From PV Require Import Model.MiscDecoders Model.HandlersProc.
+From PV Require Import Proofs.NDPOptions Proofs.MiscHopByHop Proofs.HandlersDnsMsg Proofs.MiscDecoders Proofs.HandlersProc.
 Open Scope N_scope.
 
 (* ---------------------------------------------------------------- *)
@@ -140,23 +141,11 @@ Theorem C08_nbns_unknown_answer_refuted : forall fuel, process_nbns fuel true nb
 Proof. exact nbns_refuted_unknown_answer. Qed.
 Print Assumptions C08_nbns_unknown_answer_refuted.
 
-Theorem C08_nbns_array_refuted :
-  bytes_ok nbns_array_w /\ known_C08_nbns_array (of_bytes nbns_array_w) = true /\
-  node_status_response (of_bytes nbns_array_w) = Panic /\
-  known_C08_nbns true nbns_w_array = NArray /\ process_nbns 10 true nbns_w_array = Panic.
-Proof. exact nbns_refuted_array. Qed.
-Print Assumptions C08_nbns_array_refuted.
-
-(* the node status decoder alone, byte level, with capacity *)
-Theorem C08_nbns_array_partial : forall b, wf b -> known_C08_nbns_array b = false ->
+(* the node status decoder (as repaired by d1f1b32), byte level with capacity: total *)
+Theorem C08_nbns_array_total : forall b, wf b ->
   node_status_response b <> Panic /\ node_status_response b <> Fuel.
-Proof. exact node_status_safe. Qed.
-Print Assumptions C08_nbns_array_partial.
-
-Theorem C08_nbns_array_known_exact : forall b, wf b -> known_C08_nbns_array b = true ->
-  node_status_response b = Panic.
-Proof. exact node_status_panic. Qed.
-Print Assumptions C08_nbns_array_known_exact.
+Proof. exact node_status_total. Qed.
+Print Assumptions C08_nbns_array_total.
 
 Theorem C08_nbns_partial : forall m valid, known_C08_nbns valid m = NNone ->
   forall fuel, (2 * length (m_recs m) + 4 <= fuel)%nat ->
@@ -168,3 +157,109 @@ Example C08_nbns_nonvacuous :
   known_C08_nbns true nbns_w_good = NNone /\ process_nbns 10 true nbns_w_good = Ok tt.
 Proof. exact nbns_nonvacuous. Qed.
 Print Assumptions C08_nbns_nonvacuous.
+
+(* ---------------------------------------------------------------- *)
+(* DHCP4.IsValid / validateOptions / ParseOptions (layer_dhcp4.go): total for every slice *)
+Theorem C08_dhcp_parse_options_total : forall p, wf p ->
+  forall fuel, (len p < fuel)%nat ->
+  dhcp_parse_options fuel p <> Panic /\ dhcp_parse_options fuel p <> Fuel.
+Proof. exact dhcp_parse_options_total. Qed.
+Print Assumptions C08_dhcp_parse_options_total.
+
+Theorem C08_dhcp_is_valid_total : forall p, wf p ->
+  forall fuel, (len p < fuel)%nat -> dhcp_is_valid fuel p <> Panic /\ dhcp_is_valid fuel p <> Fuel.
+Proof. exact dhcp_is_valid_total. Qed.
+Print Assumptions C08_dhcp_is_valid_total.
+
+Example C08_dhcp_nonvacuous :
+  bytes_ok dhcp_sample /\ dhcp_is_valid 300 (of_bytes dhcp_sample) = Ok tt /\
+  dhcp_parse_options 300 (of_bytes dhcp_sample) = Ok tt.
+Proof. exact dhcp_nonvacuous. Qed.
+Print Assumptions C08_dhcp_nonvacuous.
+
+(* Process8023Frame gates (layer_802_3.go:107): total *)
+Theorem C08_process_8023_total : forall payload, wf payload ->
+  process_8023 payload <> Panic /\ process_8023 payload <> Fuel.
+Proof. exact process_8023_total. Qed.
+Print Assumptions C08_process_8023_total.
+
+(* LLDP.GetPDU (layer_ethernet.go:277): DESIGN section 11 #7 *)
+Theorem C08_lldp_refuted :
+  bytes_ok lldp_w /\ known_C08_lldp_short_tlv (of_bytes lldp_w) 3 = true /\
+  forall fuel, (8 < fuel)%nat -> lldp_get_pdu fuel (of_bytes lldp_w) 3 0 = Panic.
+Proof. exact lldp_refuted. Qed.
+Print Assumptions C08_lldp_refuted.
+
+Theorem C08_lldp_partial : forall p pdu, wf p -> known_C08_lldp_short_tlv p pdu = false ->
+  forall fuel, (len p < fuel)%nat ->
+  lldp_get_pdu fuel p pdu 0 <> Panic /\ lldp_get_pdu fuel p pdu 0 <> Fuel.
+Proof. exact lldp_get_pdu_partial. Qed.
+Print Assumptions C08_lldp_partial.
+
+Theorem C08_lldp_known_exact : forall p pdu, wf p -> known_C08_lldp_short_tlv p pdu = true ->
+  forall fuel, (len p < fuel)%nat -> lldp_get_pdu fuel p pdu 0 = Panic.
+Proof. exact lldp_get_pdu_known_panics. Qed.
+Print Assumptions C08_lldp_known_exact.
+
+Example C08_lldp_nonvacuous :
+  known_C08_lldp_short_tlv (of_bytes lldp_good) 3 = false /\ lldp_get_pdu 30 (of_bytes lldp_good) 3 0 = Ok tt.
+Proof. exact lldp_nonvacuous. Qed.
+Print Assumptions C08_lldp_nonvacuous.
+
+(* SSDP: CACHE-CONTROL parsing (ssdp.go:66, byte level) and processSSDP* over the structured
+   view of the net/http result: DESIGN section 11 #21 *)
+Theorem C08_ssdp_cache_control_refuted :
+  bytes_ok ssdp_cc_w /\ known_C08_ssdp_cc ssdp_cc_w = true /\ cache_control ssdp_cc_w = Panic.
+Proof. exact ssdp_cc_refuted. Qed.
+Print Assumptions C08_ssdp_cache_control_refuted.
+
+Theorem C08_ssdp_cache_control_classified : forall v,
+  if known_C08_ssdp_cc v then cache_control v = Panic
+  else cache_control v <> Panic /\ cache_control v <> Fuel.
+Proof. exact cache_control_classified. Qed.
+Print Assumptions C08_ssdp_cache_control_classified.
+
+Theorem C08_ssdp_classified : forall v,
+  if known_C08_ssdp v then process_ssdp v = Panic
+  else process_ssdp v <> Panic /\ process_ssdp v <> Fuel.
+Proof. exact process_ssdp_classified. Qed.
+Print Assumptions C08_ssdp_classified.
+
+Example C08_ssdp_nonvacuous : known_C08_ssdp_cc ssdp_cc_good = false /\ cache_control ssdp_cc_good = Ok tt.
+Proof. exact ssdp_cc_nonvacuous. Qed.
+Print Assumptions C08_ssdp_nonvacuous.
+
+(* ---------------------------------------------------------------- *)
+(* processors: byte-access skeletons (Model/HandlersProc.v) *)
+Theorem C08_arp_total : forall p, wf p -> arp_process p <> Panic /\ arp_process p <> Fuel.
+Proof. exact arp_process_total. Qed.
+Print Assumptions C08_arp_total.
+
+Theorem C08_dhcp4_total : forall p, wf p -> forall fuel, (len p < fuel)%nat ->
+  dhcp4_process fuel p <> Panic /\ dhcp4_process fuel p <> Fuel.
+Proof. exact dhcp4_process_total. Qed.
+Print Assumptions C08_dhcp4_total.
+
+Theorem C08_icmp4_refuted :
+  bytes_ok icmp4_w /\ known_C08_icmp4_inner (of_bytes icmp4_w) = true /\ icmp4_process (of_bytes icmp4_w) = Panic.
+Proof. exact icmp4_refuted. Qed.
+Print Assumptions C08_icmp4_refuted.
+
+Theorem C08_icmp4_classified : forall p, wf p ->
+  if known_C08_icmp4_inner p then icmp4_process p = Panic
+  else icmp4_process p <> Panic /\ icmp4_process p <> Fuel.
+Proof. exact icmp4_process_classified. Qed.
+Print Assumptions C08_icmp4_classified.
+
+Example C08_icmp4_nonvacuous :
+  known_C08_icmp4_inner (of_bytes icmp4_good) = false /\ icmp4_process (of_bytes icmp4_good) = Ok tt.
+Proof. exact icmp4_nonvacuous. Qed.
+Print Assumptions C08_icmp4_nonvacuous.
+
+Theorem C08_icmp6_partial : forall lbl_ok p ra_processed, wf p ->
+  (nth 0 (arr p) 0 = 134 -> ra_processed = true ->
+   known_C08_ndp_zero (mkSlice (skipn 16 (arr p)) (len p - 16)) = ZNone) ->
+  forall fuel, (len p < fuel)%nat ->
+  icmp6_process lbl_ok fuel ra_processed p <> Panic /\ icmp6_process lbl_ok fuel ra_processed p <> Fuel.
+Proof. exact icmp6_process_partial. Qed.
+Print Assumptions C08_icmp6_partial.
